@@ -67,7 +67,7 @@ def r04_1(ctx):
 RESULT_FILES = ("src/filter/", "src/html/")
 
 
-def r04_2(ctx):
+def r04_2(ctx, rid="R04.2"):
     F = ctx.facts
 
     def body(r):
@@ -126,7 +126,7 @@ def r04_2(ctx):
                 r.ob(key, (used and not ok_ed) or exc is not None, f.loc(span_line(t["s"])),
                      ("exception: " + exc) if exc else ("Result of %s is %s" % (cal.key(), "propagated / matched" if (used and not ok_ed) else "dropped or reduced to a flag: an internal error would go unnoticed")))
         r.ob("result:sites", n >= 30, "", "%d Result-returning calls in the filter and tokenizer layers" % n)
-    ctx.run_rule("R04.2", "Result discipline in the filter layers", body, floor=30)
+    ctx.run_rule(rid, "Result discipline in the filter layers", body, floor=30)
 
 
 _APPENDS = {}
@@ -297,7 +297,7 @@ def r04_4(ctx):
     ctx.run_rule("R04.4", "flush order at end of stream", body, floor=3)
 
 
-def r04_5(ctx):
+def r04_5(ctx, rid="R04.5"):
     F = ctx.facts
 
     def body(r):
@@ -371,7 +371,7 @@ def r04_5(ctx):
                 if e[0] == "call" and e[1] == "std::collections::HashSet::insert" and e[2][1][0] == "const":
                     names2.add(e[2][1][1])
         r.ob("gating:encoding-tables-agree", names == names2 == {"br", "gzip", "deflate"}, gef.site, "get_encoding_filters accepts %s; SupportedEncoding::new_hash_set lists %s" % (sorted(names), sorted(names2)))
-    ctx.run_rule("R04.5", "gating tables", body, floor=10)
+    ctx.run_rule(rid, "gating tables", body, floor=10)
 
 
 def r04_6(ctx):
